@@ -143,7 +143,10 @@ def run_storms(v, tier, seed, work, engine_tag, prop_note):
         shared = (i % 2 == 0)
         nsubs = r.choice([1, 2, 3, 4]); nwr = r.choice([2, 3, 4, 6]); nwrites = r.choice([20, 40, 80]) if tier == "quick" else r.choice([20, 50, 100, 200])
         nlate = r.choice([0, 1, 2])
-        cases.append((f"storm{i}", [f"cfg auth=0", f"storm {nsubs} {nwr} {nwrites} {nlate} {'k' if shared else 'p'}"], (nsubs, nwr, nwrites, nlate, shared)))
+        # every third case on a server whose channels have room for two messages only: the core task waits for the forwarding
+        # tasks, the forwarding tasks for the socket writer (back-pressure instead of buffering)
+        cfg = "cfg auth=0 buf=2" if i % 3 == 2 else "cfg auth=0"
+        cases.append((f"storm{i}", [cfg, f"storm {nsubs} {nwr} {nwrites} {nlate} {'k' if shared else 'p'}"], (nsubs, nwr, nwrites, nlate, shared)))
     cpath = os.path.join(work, f"storm{engine_tag}.txt")
     write_cases(cpath, [(nm, ops) for nm, ops, _ in cases])
     impl, _model = run_engine("session", "session_driver", cpath, work, tag=f"-storm{engine_tag}")
@@ -174,4 +177,4 @@ def run_storms(v, tier, seed, work, engine_tag, prop_note):
             v.violation({"what": "concurrent traffic: " + msg, "case": nm, "engine": "session", "driver": "session_driver", "ops": ops,
                          "broken_obligation": "correspondence session (storm replayed serially; Proofs/ConcFacts.v conc_core, conc_stream)"}, no_input=True)
     return {"cases": len(cases), "events_checked": events, "late_subscribers": lates, "late_subscribers_that_joined_mid_traffic": mid,
-            "rule": "every connection a task of its own on the multi-threaded runtime of a real in-process server: 1..4 live subscribers acknowledged first, 2..6 writers released at a barrier each PIPELINING 20..200 sets (one shared key, or a key per writer under one pattern), 0..2 subscribers with snapshot joining in the middle; judged by the schedule-independent facts proved in Proofs/ConcFacts.v for every schedule (answers in request order, Ack first, every subscriber the same sequence = every writer's values in order, each once; a late subscriber: state at that moment, then exactly the rest; final state = last write per key) and replayed serially, in the order the subscribers saw, through the extracted session model (its deliveries per subscriber must be what that subscriber received). " + prop_note}
+            "rule": "every connection a task of its own on the multi-threaded runtime of a real in-process server: 1..4 live subscribers acknowledged first, 2..6 writers released at a barrier each PIPELINING 20..200 sets (one shared key, or a key per writer under one pattern), 0..2 subscribers with snapshot joining in the middle; every third case with a channel capacity of 2 (back-pressure); judged by the schedule-independent facts proved in Proofs/ConcFacts.v for every schedule (answers in request order, Ack first, every subscriber the same sequence = every writer's values in order, each once; a late subscriber: state at that moment, then exactly the rest; final state = last write per key) and replayed serially, in the order the subscribers saw, through the extracted session model (its deliveries per subscriber must be what that subscriber received). " + prop_note}
